@@ -218,6 +218,92 @@ def check_extra(chk, tmp):
                 chk.violation({'op': op, 'handle': hname, 'commit': True, 'kind': 'schema-sequence'},
                               "%s(.., 't', schema='aux') with a namesake main.t, then appenddb with headers (b, a), cut(b, a) and an unqualified load, handle=%s: %s"
                               % (op, hname, msg), {'kind': 'schema-sequence', 'handle': hname, 'op': op})
+    # (4) a load that FAILED leaves nothing behind that a LATER successful load (same file name, another table) could commit
+    for op in ('todb', 'appenddb'):
+        path = os.path.join(tmp, 'later.db')
+        if os.path.exists(path):
+            os.remove(path)
+        c = sqlite3.connect(path)
+        c.execute('create table t1 (v integer)')
+        c.execute('create table t2 (v integer)')
+        c.executemany('insert into t1 values (?)', [(7,), (8,)])
+        c.commit()
+        c.close()
+        msg = None
+        try:
+            try:
+                getattr(etl, op)(ProbeTable(['v'], rows=[[1], [2], [3]], fail_at=2), path, 't1')
+                msg = 'the failing load returned normally'
+            except InjectedFailure:
+                pass
+            mid = [r[0] for r in fresh(path, 'select v from t1')]
+            etl.todb([['v'], [100]], path, 't2')
+            etl.appenddb([['v'], [101]], path, 't2')
+        except Exception as e:
+            msg = 'raised %r' % (e,)
+        t1_rows = [r[0] for r in fresh(path, 'select v from t1')]
+        t2_rows = [r[0] for r in fresh(path, 'select v from t2')]
+        chk.count(('later-load', op))
+        chk.replayed += 1
+        if msg or mid != [7, 8] or t1_rows != [7, 8] or t2_rows != [100, 101]:
+            chk.violation({'op': op, 'handle': 'filename', 'commit': True, 'kind': 'later-load'},
+                          '%s into t1 fails at its 2nd row, then todb / appenddb into t2 through the same file name: %s t1 holds %r (right after the failure %r), t2 %r; '
+                          'spec: t1 [7, 8] throughout, t2 [100, 101]' % (op, msg or '', t1_rows, mid if not msg else '?', t2_rows),
+                          {'kind': 'later-load', 'op': op})
+    # (5) table names with characters that are special to %-formatting or quoting
+    for tname in (u'growth %', u'100%', u'a%%b', u'x%sy', u'we"ird', u'sp ace', u'%(n)s'):
+        for hname in ('filename', 'connection', 'cursor', 'mkcurs'):
+            path = os.path.join(tmp, 'names.db')
+            if os.path.exists(path):
+                os.remove(path)
+            q = '"%s"' % tname.replace('"', '""')
+            c = sqlite3.connect(path)
+            c.execute('create table %s (a integer, b integer)' % q)
+            c.execute('create table %s (a integer, b integer)' % '"a%b"' if tname == u'a%%b' else 'create table "other" (a integer, b integer)')
+            c.execute('insert into %s values (0, 0)' % q)
+            c.commit()
+            msg = None
+            try:
+                dbo = path if hname == 'filename' else dict(_handles(c))[hname]()
+                etl.todb([['a', 'b'], [1, 2]], dbo, tname)
+                etl.appenddb([['b', 'a'], [4, 3]], dbo, tname)
+            except Exception as e:
+                msg = 'raised %r' % (e,)
+            c.close()
+            got = fresh(path, 'select a, b from %s' % q)
+            others = fresh(path, 'select count(*) from %s' % ('"a%b"' if tname == u'a%%b' else '"other"'))[0][0]
+            chk.count(('table-name', tname, hname))
+            chk.replayed += 1
+            if msg or got != [(1, 2), (3, 4)] or others:
+                chk.violation({'op': 'todb', 'handle': hname, 'commit': True, 'kind': 'table-name'},
+                              'todb then appenddb into the table named %r, handle=%s: %s the table holds %r (spec [(1, 2), (3, 4)]), a neighbouring table %d rows (spec 0)'
+                              % (tname, hname, msg or '', got, others), {'kind': 'table-name', 'name': tname, 'handle': hname})
+    # (6) fromdb delivers every row of a result beyond any fetch block size, on every handle kind, twice
+    path = os.path.join(tmp, 'many.db')
+    if os.path.exists(path):
+        os.remove(path)
+    c = sqlite3.connect(path)
+    c.execute('create table t (v integer, w text)')
+    c.executemany('insert into t values (?, ?)', [(i, 'r%d' % i) for i in range(2501)])
+    c.commit()
+    want = [('v', 'w')] + [(i, 'r%d' % i) for i in range(2501)]
+    for hname, dbo in (('connection', c), ('mkcurs', lambda: c.cursor()), ('filename', path)):
+        for q, n in (('select * from t order by v', 2501), ('select * from t where v < 1000 order by v', 1000), ('select * from t where v < 1001 order by v', 1001),
+                     ('select * from t where v < 999 order by v', 999), ('select * from t where v < 0', 0)):
+            try:
+                v = etl.fromdb(dbo, q)
+                p1 = [tuple(r) for r in v]
+                p2 = [tuple(r) for r in v]
+            except Exception as e:
+                p1 = p2 = 'raised %r' % (e,)
+            chk.count(('fromdb', hname, n))
+            chk.replayed += 1
+            if p1 != want[:n + 1] or p2 != want[:n + 1]:
+                chk.violation({'op': 'fromdb', 'handle': hname, 'kind': 'fromdb-large'},
+                              'fromdb(%s, %r): pass 1 delivered %s rows, pass 2 %s, the query has %d' % (
+                                  hname, q, len(p1) - 1 if isinstance(p1, list) else p1, len(p2) - 1 if isinstance(p2, list) else p2, n),
+                              {'kind': 'fromdb-large', 'handle': hname, 'n': n})
+    c.close()
     # file-name handle: permuted headers in sequence
     path = os.path.join(tmp, 'seq.db')
     if os.path.exists(path):
